@@ -66,6 +66,25 @@ pub fn compile_and_project(tx: &tir::Tx, compiler: &mut tx3_cardano::Compiler) -
 }
 
 pub fn run_one(src: &str, case: &Value) -> Value {
+    let mut compiler = ctx::make_compiler(&case["cfg"]);
+    // a compiler that has served other transactions before: each earlier source is staged with the arguments of the
+    // case and compiled on the same instance, its result ignored
+    for h in case["history"].as_array().cloned().unwrap_or_default() {
+        if let lang::Front::Ok(txs) = lang::lower_source(str_of(&h)) {
+            if let Some(t) = txs.get(str_of(&case["tx"])) {
+                let args = tirj::args_from(&case["args"]);
+                let inputs = staging::inputs_from(&case["utxos"]);
+                let fee = int_from(&case["fee"]) as u64;
+                if let Staged::Ok(tx) = stage_all(t.clone(), &args, &inputs, fee, &mut compiler) {
+                    let _ = compile_and_project(&tx, &mut compiler);
+                }
+            }
+        }
+    }
+    run_one_on(src, case, &mut compiler)
+}
+
+fn run_one_on(src: &str, case: &Value, compiler: &mut tx3_cardano::Compiler) -> Value {
     let front = lang::lower_source(src);
     let lang::Front::Ok(txs) = &front else {
         let mut e = lang::front_event(&front);
@@ -79,9 +98,8 @@ pub fn run_one(src: &str, case: &Value) -> Value {
     let args = tirj::args_from(&case["args"]);
     let inputs = staging::inputs_from(&case["utxos"]);
     let fee = int_from(&case["fee"]) as u64;
-    let mut compiler = ctx::make_compiler(&case["cfg"]);
-    let mut out = match stage_all(t.clone(), &args, &inputs, fee, &mut compiler) {
-        Staged::Ok(tx) => compile_and_project(&tx, &mut compiler),
+    let mut out = match stage_all(t.clone(), &args, &inputs, fee, compiler) {
+        Staged::Ok(tx) => compile_and_project(&tx, compiler),
         Staged::Err(stage, kind) => json!({"outcome": "err", "stage": stage, "kind": kind}),
         Staged::Panic(stage, p) => json!({"outcome": "panic", "stage": stage, "site": p["file"], "msg": p["msg"]}),
     };
